@@ -31,6 +31,7 @@ use serde::{Deserialize, Serialize};
 /// ```
 #[derive(Copy, Clone, Eq, PartialEq, Hash, Debug, derive_more::Into)]
 #[cfg_attr(feature = "serde", derive(Serialize, Deserialize))]
+#[cfg_attr(feature = "serde", serde(try_from = "(u8, U7, U7)"))]
 pub struct RawShortMessage((u8, U7, U7));
 
 impl ShortMessageFactory for RawShortMessage {
